@@ -89,6 +89,12 @@ Inductive arg :=
 
 Inductive copykind := CkCopy | CkCopyCopy | CkDeepCopy | CkPickle.
 
+(* a malformed item at the end of an iterable of pairs: a non-iterable, a 3-tuple, a 1-tuple, a pair
+   whose key is unhashable *)
+Inductive badkind := BkInt | BkLong | BkShort | BkUnhashable.
+Definition bad_exn (b : badkind) : exn :=
+  match b with BkInt | BkUnhashable => TypeError | BkLong | BkShort => ValueError end.
+
 Inductive op :=
 (* mutators *)
 | Add (k : K) (v : V) | AddList (k : K) (vs : list V) | SetItem (k : K) (v : V) | DelItem (k : K)
@@ -103,11 +109,18 @@ Inductive op :=
 | ToDict (multi : bool) | Counts | Inverted | Sorted (f : keyfn) (reverse : bool)
 | SortedValues (f : keyfn) (reverse : bool) | Repr
 | EqOther (ne : bool) | EqSelf (ne : bool) | EqPairs (ne : bool) (l : pairs)
-| EqMap (ne : bool) (m : pairs) | EqJunk (ne : bool).
+| EqMap (ne : bool) (m : pairs) | EqJunk (ne : bool)
+(* inherited from dict: d | mapping and mapping | d give a plain dict of visible values *)
+| OrMap (m : pairs) | ROrMap (m : pairs)
+(* malformed arguments: the items before the malformed one take effect, then the exception; the
+   object stays consistent.  [BadKey n]: method number n called with an unhashable key *)
+| UpdateBad (l : pairs) (b : badkind) | UpdateExtendBad (l : pairs) (b : badkind)
+| AddListBad (k : K) | BadKey (n : nat).
 
 Inductive out :=
 | OVal (v : V) | OBool (b : bool) | ONat (n : nat)
-| OList (l : list nat) | OPairs (l : pairs) | OMulti (l : list (K * list V)) | OItem (k : K) (v : V).
+| OList (l : list nat) | OPairs (l : pairs) | OMulti (l : list (K * list V)) | OItem (k : K) (v : V)
+| ORaised (e : exn).       (* the call raised e AFTER a partial effect described by the next state *)
 
 Fixpoint nodup_b (l : list nat) : bool :=
   match l with [] => true | x :: r => negb (mem_nat x r) && nodup_b r end.
@@ -121,7 +134,7 @@ Definition wf_op (o : op) : bool :=
   | IOr a => wf_arg a
   | New (Some a) kw => wf_arg a && nodup_b (map fst kw)
   | New None kw => nodup_b (map fst kw)
-  | EqMap _ m => nodup_b (map fst m)
+  | EqMap _ m | OrMap m | ROrMap m => nodup_b (map fst m)
   | _ => true
   end.
 
@@ -140,6 +153,9 @@ Definition eq_map_spec (l : pairs) (m : pairs) : bool :=
   forallb (fun k => opt_eqb_v (d_get m k) (lookup l k)) (map fst m ++ map fst l).
 
 Definition xorb_ne (ne b : bool) : bool := if ne then negb b else b.
+
+(* dict merge: later entries overwrite the value in place or are appended *)
+Definition dict_merge (a b : pairs) : pairs := fold_left (fun d p => d_set d (fst p) (snd p)) b a.
 
 Section Step.
   Variable self other : pairs.
@@ -225,6 +241,12 @@ Section Step.
     | EqPairs ne l => (self, Ok (OBool (xorb_ne ne (pairs_eqb self l))))
     | EqMap ne m => (self, Ok (OBool (xorb_ne ne (eq_map_spec self m))))
     | EqJunk ne => (self, Ok (OBool (xorb_ne ne false)))
+    | OrMap m => (self, Ok (OPairs (dict_merge (items1 self) m)))
+    | ROrMap m => (self, Ok (OPairs (dict_merge m (items1 self))))
+    | UpdateBad l b => (replace_with self l, Ok (ORaised (bad_exn b)))
+    | UpdateExtendBad l b => (self ++ l, Ok (ORaised (bad_exn b)))
+    | AddListBad _ => (self, Ok (ORaised TypeError))
+    | BadKey _ => (self, Ok (ORaised TypeError))
     end.
 End Step.
 
